@@ -563,6 +563,40 @@ def build_case(rng, n, edges, variant):
     return {'mods': mods, 'dyn': dyn, 'sched': None}
 
 
+def fault_case(rng):
+    """a clean configuration (the node comes up) whose poll threads serve several modules, with faults anywhere in the
+    start-up sequence: refused / crashing writes, failing initial reads, failing first polls (all exception classes of
+    the catalogue, communication failures included), in a random declaration order"""
+    k = rng.choice([1, 2, 2, 3, 3, 4])
+    mode = rng.choice(['explicit', 'explicit', 'uri', 'own'])
+    mods = []
+
+    def faults(sp, p):
+        sp['wfail'] = random_write_faults(rng, sp['writes'], rng.choice([0.0, 0.0, 0.4]))
+        if rng.random() < p:
+            sp['rfail'] = rng.choice(FAULT_CLASSES + list(COMM_CLASSES))
+        if rng.random() < p:
+            sp['pfail'] = rng.choice(FAULT_CLASSES + list(COMM_CLASSES))
+        return sp
+
+    if mode == 'explicit':
+        mods.append(faults(mkspec('io', cls='IO', poll=rng.random() < 0.5, export=rng.random() < 0.8,
+                                  writes=rng.choice([[], [], ['w0']])), 0.15))
+    p = rng.choice([0.15, 0.3, 0.5])
+    for i in range(k):
+        writes = rng.choice([[], ['w0'], ['w1'], ['w0', 'w1'], ['w0', 'w1', 'w2'], ['w2']])
+        sp = mkspec('u%d' % i, cls='L' if mode == 'own' else 'HIO', poll=rng.random() < 0.75, export=rng.random() < 0.8,
+                    writes=writes, delay=rng.choice([0, 0, 0, 0, 4]))
+        if mode == 'explicit':
+            sp['atts'].append(['io', 'io', False, 0])
+        elif mode == 'uri':
+            sp['atts'].append(['io', None, False, 0])
+            sp['uri'] = rng.choice(['x://1', 'x://1', 'x://2'])
+        mods.append(faults(sp, p))
+    rng.shuffle(mods)
+    return {'mods': mods, 'dyn': [], 'sched': None}
+
+
 # =========================================================================================================
 # observation, model, judge
 # =========================================================================================================
@@ -760,30 +794,41 @@ def signature(case, clause, obs):
 
 
 META = {
-    'level_text': 'Proved for all inputs on the Lean model of the repaired code: sorted_modules_topological (_getSortedModules returns '
-                  'every module once and users first on every graph with a topological numbering, for every choice of set.pop()), '
-                  'shutdown_phase_order (stopPoll before shutdown, once each, users first), ready_only_after_first_round (every '
-                  'schedule: ready only when every started poll thread reported its first round or the deadline passed).  '
-                  'init_order_once, attached_ready, bad_attachment_reported, writes_before_first_poll are stated in Lean but NOT '
-                  'proved; for them the evidence is differential: the real Server._processCfg + SecNode.shutdown_modules run with '
-                  'instrumented module classes under the deterministic scheduler on all attachment graphs up to 4 modules (thorough: '
-                  'all DAGs on 5 + sampled cyclic graphs), the model predicts every log exactly, and the Lean monitors judge every '
-                  'implementation log.  attached_ready has a recorded finding (proved counterexample attached_ready_fails).',
+    'level_text': 'Proved on the Lean model (of the repaired code), for every configuration, fuel, schedule of start loop / poll '
+                  'threads / clock and choice function of set.pop(): attached_ready, no_half_start, ready_after_first_round, '
+                  'poll_threads_stopped (whole runs); sorted_modules_topological, shutdown_phase_order, shutdown_order_whole_run '
+                  '(resolved attachments assumed acyclic); init_order_once_partial; multievent_wait_sound (MultiEvent at the '
+                  'granularity of its primitives); acyclicB_iff.  Start-up faults (any exception in write_<p>, initialReads, '
+                  'first polls): write_faults_lose_no_write (writeInitParams hands every configured value to its write method '
+                  'whatever any of them raises), startup_sequence_complete, no_write_after_first_poll (FULL: no configured value '
+                  'is written after the first poll of its module - every schedule, any faults; uses the proved invariant '
+                  'startup_groupsOk: no module is registered twice for polling), writes_before_first_poll_partial (exactly once, '
+                  'for threads whose initial reads meet no communication failure).  NOT proved, kept as statements: '
+                  'init_order_once (full), bad_attachment_reported first half, writes_before_first_poll against the Spec\'s module '
+                  'list (false on the code that exists: recorded finding comm_failure_skips_writes), shutdown_order against the '
+                  'declared attachments; for these the evidence is differential: the real Server._processCfg + '
+                  'SecNode.shutdown_modules run with instrumented module classes (fault injection included) under the '
+                  'deterministic scheduler on all attachment graphs up to 4 modules (thorough: all DAGs on 5 + sampled cyclic '
+                  'graphs), the model predicts every log exactly, and the Lean monitors judge every implementation log.',
     'level_note': 'Trusted: Lean kernel + axioms propext/Classical.choice/Quot.sound; vlib.sched (virtual clock, gated threads); '
                   'multievent.py is re-executed from source with the scheduler\'s threading/time; the instrumented classes log '
-                  'before calling super(); acyclicity is characterised by a rank function (topological numbering).',
+                  'before calling super(); injected faults are raised by the instrumented write_/initialReads/read_ methods '
+                  '(a communication failure is logged as part of the observation).',
     'trusted': [
         'vlib.sched: gated real threads + virtual clock reproduce an admissible interleaving of the real threads',
-        'the instrumented module classes (log, then super()) do not change the lifecycle',
-        'a finite graph is acyclic iff it has a topological numbering (`Ranked`); the monitor uses Kahn stripping',
+        'the instrumented module classes (log, then super(), then the injected fault) do not change the lifecycle',
+        'the abstract MultiEvent of the start-phase theorems is atomic; the harness checks on every run that the real primitives '
+        'follow the protocol model for which multievent_wait_sound is proved',
     ],
     'modelled_not_verified': [
         'Module.__init__ (property/parameter configuration) — only "mandatory attachment without value" is modelled',
-        'the poll loop after the first round; communication failures during the first round',
+        'the poll loop after the first polls (only the first poll of each module in the main loop after a broken-off start-up '
+        'sequence is modelled); reconnect callbacks',
         'Dispatcher, interfaces, daemonising, signal handling, restart',
     ],
     'assumptions': ['Pinatas are declared statically and have no attachments of their own',
-                    'module names are distinct from the names of automatically created communicators'],
+                    'module names are distinct from the names of automatically created communicators',
+                    'exceptions raised by drivers are Exception subclasses (no BaseException)'],
 }
 
 
@@ -805,6 +850,11 @@ def run(ctx):
             for edges in all_graphs(n):
                 for v in (['plain', 'touchy', 'fail', 'missing', 'hio', 'pin', 'slow', 'wfault', 'sfault'] if n > 1 else VARIANTS):
                     yield f'n{n}', build_case(rng, n, edges, v)
+        for i in range(ctx.budget(400, 4000)):      # start-up faults on shared poll threads; every third under a random schedule
+            c = fault_case(rng)
+            if i % 3 == 2:
+                c['_random_sched'] = True
+            yield 'faults', c
         for _ in range(ctx.budget(300, 3000)):      # self loops, random schedules
             n = rng.choice([2, 3, 4])
             c = build_case(rng, n, random_graph(rng, n, rng.random() < 0.7), rng.choice(VARIANTS + ['slow', 'hio']))
@@ -822,7 +872,7 @@ def run(ctx):
                 yield 'n5rnd', build_case(rng, 5, random_graph(rng, 5, False), rng.choice(VARIANTS))
 
     cases = gen_cases()
-    t_end = time.time() + (42 if ctx.tier == 'quick' else 11 * 60)
+    t_end = time.time() + (36 if ctx.tier == 'quick' else 11 * 60)
     reqs, metas = [], []
     for kind, case in cases:
         if time.time() > t_end:
@@ -842,7 +892,7 @@ def run(ctx):
         {'mods': [mkspec('m0'), mkspec('m1')], 'dyn': [], 'sched': None},
         {'mods': [mkspec('m0', writes=['w0']), mkspec('m1', poll=False, writes=['w0']), mkspec('m2')], 'dyn': [], 'sched': None},
     ]
-    t_exp = time.time() + (14 if ctx.tier == 'quick' else 150)
+    t_exp = time.time() + (12 if ctx.tier == 'quick' else 150)
     for scen in scenarios:
         def make_run(policy, scen=scen):
             c = json.loads(json.dumps(scen))
@@ -871,6 +921,10 @@ def run(ctx):
         res.count('outcome.' + ('crash' if obs['crash'] else 'errors' if obs['errors'] else 'up'))
         res.count('cfg.' + ('clean' if judge['clean'] else 'bad-attachment' if judge['bad'] else 'other-defect'))
         res.count('attachments.%s' % (natt if natt < 4 else '4+'))
+        if not obs['errors']:
+            comm = [sp for sp in specs for f in ('rfail', 'pfail') if sp.get(f) in COMM_CLASSES]
+            other = [sp for sp in specs if sp.get('wfail') or sp.get('rfail') or sp.get('pfail')]
+            res.count('faults.' + ('comm-failure' if comm else 'other-exception' if other else 'none'))
         if len(specs) >= 2 and natt >= 1:
             res.nontriv(wire_cfg(case))
         if len(res.samples) < 4 and natt >= 2 and len(obs['log']) < 40 and (len(res.samples) % 2 == 0) == bool(obs['errors']):
